@@ -29,12 +29,12 @@ def spec_dir(ctx):
     return d
 
 
-def fusion_cfg(d, name, lang, fixed=True, fixed2=True, emit=False, trace=False, shift=True, fixed3=True):
+def fusion_cfg(d, name, lang, fixed=True, fixed2=True, emit=False, trace=False, shift=True, fixed3=True, fixed4=True):
     p = os.path.join(d, name + ".cfg")
     with open(p, "w") as f:
-        f.write("SPECIFICATION %s\nCONSTANTS\n  Lang = \"%s\"\n  Cpp11Shift = %s\n  Fixed = %s\n  Fixed2 = %s\n  Fixed3 = %s\n  Emit = %s\n" % (
+        f.write("SPECIFICATION %s\nCONSTANTS\n  Lang = \"%s\"\n  Cpp11Shift = %s\n  Fixed = %s\n  Fixed2 = %s\n  Fixed3 = %s\n  Fixed4 = %s\n  Emit = %s\n" % (
             "TSpec" if trace else "Spec", lang, "TRUE" if shift else "FALSE", "TRUE" if fixed else "FALSE",
-            "TRUE" if fixed2 else "FALSE", "TRUE" if fixed3 else "FALSE", "TRUE" if emit else "FALSE"))
+            "TRUE" if fixed2 else "FALSE", "TRUE" if fixed3 else "FALSE", "TRUE" if fixed4 else "FALSE", "TRUE" if emit else "FALSE"))
         if trace:
             f.write("POSTCONDITION TraceAccepted\n")
         else:
@@ -163,7 +163,8 @@ def fusion_part(ctx):
             "pairs": len(pairs), "guarded": sum(1 for p in pairs if p[3] == "guarded"),
             "open": sum(1 for p in pairs if p[3] == "open")}
         # replay: every pair whose first element can be followed by something on the same line
-        todo = [(a, b, ang) for a, b, ang, cls in pairs if not a.startswith("//") and "\x0c" not in a + b and not ang]
+        todo = [(a, b, ang) for a, b, ang, cls in pairs if not a.startswith("//") and "\x0c" not in a + b and not ang
+                and not (lang == "D" and a.endswith(".") and b.startswith("."))]      # D lexes '1...' by its own slice rule
         if quick:
             # all fusable pairs, plus a seeded slice of the safe ones
             fus = [(a, b, ang) for a, b, ang, cls in pairs if cls != "safe" and not a.startswith("//") and not ang]
@@ -182,8 +183,11 @@ def fusion_part(ctx):
             cpath = os.path.join(d, "fz_%s_%s.cfg" % (lang, cname))
             obs.write(cpath, ctext)
             for cn in ctxnames:
-                for k in range(0, len(todo), 60):
-                    jobs.append((cpath, cn, todo[k:k + 60], "fz%s_%s_%s_%d" % (lang, cname, cn, k)))
+                # a '#' in the middle of ordinary code is a stringify operator only inside a macro body
+                use = todo if cn == "macro" else [p_ for p_ in todo if not p_[0].startswith("#") and not p_[1].startswith("#") and not p_[0].startswith("%:")
+                                                  and not p_[1].startswith("%:")]
+                for k in range(0, len(use), 60):
+                    jobs.append((cpath, cn, use[k:k + 60], "fz%s_%s_%s_%d" % (lang, cname, cn, k)))
 
         def do(job):
             cpath, cn, ps, tag = job
@@ -219,9 +223,9 @@ def fusion_part(ctx):
                 ctx.drift.append({"module": "Fusion", "kind": dn, "id": rep["id"], "cls": rep.get("cls")})
         ctx.sample({"fusion_event": {k: events[len(events) // 2][k] for k in ("id", "ins", "outs", "gap0", "force")}}, cap=8)
     # the rule before each repair must be rejected by the model
-    for name, f1, f2, f3 in (("Fusion_asbuilt", False, False, False), ("Fusion_asbuilt2", True, False, False),
-                             ("Fusion_asbuilt3", True, True, False)):
-        cfg = fusion_cfg(d, name + "_w", "CPP", fixed=f1, fixed2=f2, fixed3=f3)
+    for name, f1, f2, f3, f4, vl in (("Fusion_asbuilt", False, False, False, False, "CPP"), ("Fusion_asbuilt2", True, False, False, False, "CPP"),
+                                     ("Fusion_asbuilt3", True, True, False, False, "CPP"), ("Fusion_asbuilt4", True, True, True, False, "D")):
+        cfg = fusion_cfg(d, name + "_w", vl, fixed=f1, fixed2=f2, fixed3=f3, fixed4=f4)
         r = tlc_retry("Fusion", cfg, cwd=d, workers=4, timeout=600)
         ctx.cov.setdefault("asbuilt_variants_rejected", {})[name] = bool(r.violation)
         if not r.violation:
@@ -255,6 +259,8 @@ def universe(ctx, ncases, nrandom, want_ws=True):
     ctx.rng.shuffle(cs)
     jobs = []
     for c in cs[:ncases]:
+        if b"\x00" in open(c.inp, "rb").read(4096):
+            continue                                     # UTF-16 inputs: C09
         jobs.append(("corpus|%s|%s" % (os.path.basename(c.cfg), os.path.relpath(c.inp, os.path.join(corpus.REPO, "tests/input"))),
                      c.inp, c.cfg, None, c.lang or corpus.lang_of(c.inp)))
     ins = corpus.inputs()
@@ -263,7 +269,7 @@ def universe(ctx, ncases, nrandom, want_ws=True):
     for c in ins:
         if k >= nrandom:
             break
-        if os.path.getsize(c.inp) > 60000:
+        if os.path.getsize(c.inp) > 60000 or b"\x00" in open(c.inp, "rb").read(4096):
             continue
         txt = cfggen.random_ws_config(ctx.rng, unc)
         jobs.append(("random|%d|%s" % (k, os.path.relpath(c.inp, os.path.join(corpus.REPO, "tests/input"))), c.inp, None, txt,
@@ -342,9 +348,9 @@ def report(ctx, jobs_res, reps, kinds, prop_kind):
                 continue
             jid, src, cfg, cfg_text, lang = j
             parts = jid.split("|")
-            sig = "%s|%s" % (b, parts[-1] if parts[0] == "corpus" else jid)
-            if parts[0] == "corpus":
-                sig = "%s|%s|%s" % (b, parts[1], parts[2])
+            sig = "%s|%s" % (b, jid)
+            if parts[0] in ("corpus", "random"):
+                sig = "%s|input|%s" % (b, parts[2])      # an input that is unstable lexically is so under every configuration that touches it
             ctx.violation(sig, "%s violated for %s (first pass touching text: %s)" % (b, jid, rep.get("pass")),
                           {"kind": prop_kind, "src": src, "cfg": cfg, "cfg_text": cfg_text if cfg_text is not None else open(cfg, errors="replace").read(),
                            "lang": lang, "src_bytes": open(src, "rb").read()[:200000]})
